@@ -167,6 +167,7 @@ func c14Eval(c *run.Ctx, id string, prog *wgen.Program, seed uint64, nMaps int) 
 		// path 1: ProcessOverrides on a clone
 		orig := lower()
 		d0 := irstrict.Hash(orig)
+		s0 := c12Sections(orig)
 		clone := ir.CloneModuleForOverrides(orig)
 		var perr error
 		if st, pan := run.Catch(func() { perr = ir.ProcessOverrides(clone, ir.PipelineConstants(om.naga)) }); pan {
@@ -174,7 +175,7 @@ func c14Eval(c *run.Ctx, id string, prog *wgen.Program, seed uint64, nMaps int) 
 			continue
 		}
 		if irstrict.Hash(orig) != d0 {
-			note("process-overrides:module-mutated", "ProcessOverrides on CloneModuleForOverrides(m) changed the original module", w)
+			note("process-overrides:module-mutated", "ProcessOverrides on CloneModuleForOverrides(m) changed the original module (sections: "+c12ChangedSections(s0, c12Sections(orig))+")", w)
 		}
 		if perr != nil {
 			note("process-overrides:error", "valid value map rejected: "+oneLine(perr.Error()), w)
@@ -272,11 +273,12 @@ func c14Eval(c *run.Ctx, id string, prog *wgen.Program, seed uint64, nMaps int) 
 			}
 			pc[key] = []float64{math.NaN(), math.Inf(1), 1e30, -1e30, 4294967296, -1}[r.Intn(6)]
 		}
+		sh0 := c12Sections(orig)
 		if st, pan := run.Catch(func() { ir.ProcessOverrides(ir.CloneModuleForOverrides(orig), pc) }); pan {
 			note("process-overrides:panic", "hostile value map: "+oneLine(st[:min(200, len(st))]), map[string]any{"wgsl": src, "pipeline_constants": fmt.Sprint(pc)})
 		}
 		if irstrict.Hash(orig) != d0 {
-			note("process-overrides:module-mutated", "hostile value map changed the original module", map[string]any{"wgsl": src})
+			note("process-overrides:module-mutated", "hostile value map changed the original module (sections: "+c12ChangedSections(sh0, c12Sections(orig))+")", map[string]any{"wgsl": src})
 		}
 		cov["hostile-maps"]++
 	}
